@@ -138,6 +138,13 @@ func canonValue(v reflect.Value, depth int) string {
 	if depth > 8 {
 		return "<deep>"
 	}
+	if v.Kind() == reflect.Interface || v.Kind() == reflect.Ptr {
+		if v.CanInterface() && !v.IsNil() {
+			if t, ok := v.Interface().(reflect.Type); ok {
+				return "T:" + t.String() + "/" + t.PkgPath()
+			}
+		}
+	}
 	switch v.Kind() {
 	case reflect.String:
 		return "s:" + v.String()
